@@ -258,8 +258,10 @@ func (k *Keeper) Close() {
 	ctx, cancel := context.WithTimeout(context.TODO(), k.opt.Timeout)
 	defer cancel()
 	if k.leaderFlag.Load().(bool) {
+		// only deregister a record that still names this worker: the flag may be stale
 		_, err := k.mongoDb.Collection(k.leaderClsName).DeleteOne(ctx, bson.M{
-			"_id": LeaderKey,
+			"_id":       LeaderKey,
+			"workerKey": k.opt.Key,
 		})
 		if err != nil {
 			log.Errorf("deregister leader failed: %s", err)
